@@ -204,7 +204,7 @@ fn send<T>(x: T, tcp_connection: &mut TcpStream, cipher: &Aes128Gcm,
     let mut nonce_bytes = [0u8; 12];
     nonce_bytes[0..8].copy_from_slice(&sending_nonce_counter.to_le_bytes());
     let nonce = Nonce::<Aes128Gcm>::from_slice(&nonce_bytes);
-    sending_nonce_counter.checked_add(2).unwrap(); // Increment by two so that it never overlaps with the nonce used by the doer
+    *sending_nonce_counter = sending_nonce_counter.checked_add(2).unwrap(); // Increment by two so that it never overlaps with the nonce used by the doer
 
     // Encrypt the message in-place. This will expand it slightly, because the encrypted message is always slightly larger than the original.
     let encrypted_len = {
@@ -257,7 +257,7 @@ fn receive<T>(tcp_connection: &mut TcpStream, cipher: &Aes128Gcm,
     let mut nonce_bytes = [0u8; 12];
     nonce_bytes[0..8].copy_from_slice(&receiving_nonce_counter.to_le_bytes());
     let nonce = Nonce::<Aes128Gcm>::from_slice(&nonce_bytes);
-    receiving_nonce_counter.checked_add(2).unwrap(); // Increment by two so that it never overlaps with the nonce used by the boss
+    *receiving_nonce_counter = receiving_nonce_counter.checked_add(2).unwrap(); // Increment by two so that it never overlaps with the nonce used by the boss
 
     // Decrypt the data in-place. This will shorten it, as the encrypted message is always slightly longer than the plaintext
     let unencrypted_data = {
